@@ -702,6 +702,15 @@ func (g *c14Gen) craftedHellos(c *c14Run) {
 			"reject-odd-curves":       curves(0, 41, 0),
 			"reject-ext-trailing":     c14Ext(10, c14Concat(c14V16([]byte{0, 41}), []byte{0})),
 			"reject-short-hash":       tca(c14Concat([]byte{4}, h32[:31])),
+			// status_request whose two vectors are missing, cut short, overlong or followed by a byte
+			"reject-status-no-vectors":      c14Ext(5, []byte{1}),
+			"reject-status-one-vector":      c14Ext(5, []byte{1, 0, 0}),
+			"reject-status-cut-vector":      c14Ext(5, []byte{1, 0, 0, 0}),
+			"reject-status-trailing":        c14Ext(5, []byte{1, 0, 0, 0, 0, 0xff}),
+			"reject-status-long-responders": c14Ext(5, []byte{1, 0, 5, 1, 2, 0, 0}),
+			"reject-status-long-extensions": c14Ext(5, []byte{1, 0, 0, 0, 3, 1, 2}),
+			"reject-status-empty":           c14Ext(5, nil),
+			"reject-status-other-type-bare": c14Ext(5, []byte{2}),
 		}
 		keys := make([]string, 0, len(chCases))
 		for k := range chCases {
